@@ -106,6 +106,22 @@ fn conv_stmt(s: &ast::Stmt, times: &mut Vec<Option<i32>>, lookup: &dyn Fn(&ast::
     }
 }
 
+/// (marker id, recorded time) of every `ins_900(k);` statement, any nesting depth, visiting order
+fn collect_markers(b: &ast::Block, lookup: &dyn Fn(&ast::Stmt) -> Option<i32>, out: &mut Vec<(i64, i32)>) {
+    for s in &b.0 {
+        match &s.kind {
+            ast::StmtKind::Expr(e) => if let (Some(k), Some(t)) = (marker_of_call(&e.value), lookup(&s.value)) { out.push((k, t)); },
+            ast::StmtKind::Block(b) | ast::StmtKind::Loop { block: b, .. } | ast::StmtKind::While { block: b, .. } | ast::StmtKind::Times { block: b, .. } => collect_markers(b, lookup, out),
+            ast::StmtKind::CondChain(chain) => {
+                for c in &chain.cond_blocks { collect_markers(&c.block, lookup, out); }
+                if let Some(e) = &chain.else_block { collect_markers(e, lookup, out); }
+            },
+            ast::StmtKind::Item(item) => if let ast::Item::Func(ast::ItemFunc { code: Some(code), .. }) = &item.value { collect_markers(code, lookup, out); },
+            _ => {},
+        }
+    }
+}
+
 fn first_body(file: &ast::ScriptFile) -> Option<&ast::Block> {
     for item in &file.items {
         match &item.value {
@@ -295,7 +311,7 @@ fn coq_ires_list(r: &Result<Option<Vec<String>>, String>) -> String {
 
 /// literal_only: parse a block only and run the pass (nested function items allowed, `+e:` is constant only for literals);
 /// otherwise: parse a file, resolve, type-check, evaluate consts, simplify, then run the pass.
-fn run_pass(text: &str, literal_only: bool) -> Option<(String, Result<Option<Vec<String>>, String>)> {
+fn run_pass(text: &str, literal_only: bool) -> Option<(String, Result<Option<Vec<String>>, String>, Vec<(i64, i32)>)> {
     let mut scope = truth::Builder::new().capture_diagnostics(true).build();
     let mut truth = scope.truth();
     truth.apply_mapfile_str(MAPFILE, GAME).ok()?;
@@ -315,17 +331,19 @@ fn run_pass(text: &str, literal_only: bool) -> Option<(String, Result<Option<Vec
     let body = first_body(&file)?;
     let emitter = truth.emitter();
     let res = catch(|| passes::semantics::time_and_difficulty::run(body, &emitter));
+    let mut markers = vec![];
     let (term, obs) = match &res {
         Ok(Ok(map)) => {
             let mut times = vec![];
             let term = conv_block(body, &mut times, &|s| s.node_id.and_then(|id| map.get(&id)).map(|d| d.time));
-            if times.iter().any(|t| t.is_none()) { return Some((term, Err("statement without recorded time".into()))); }
+            if times.iter().any(|t| t.is_none()) { return Some((term, Err("statement without recorded time".into()), markers)); }
+            collect_markers(body, &|s| s.node_id.and_then(|id| map.get(&id)).map(|d| d.time), &mut markers);
             (term, Ok(Some(times.iter().map(|t| z(t.unwrap() as i64)).collect())))
         },
         Ok(Err(_)) => { let mut t = vec![]; (conv_block(body, &mut t, &|_| None), Ok(None)) },
         Err(p) => { let mut t = vec![]; (conv_block(body, &mut t, &|_| None), Err(p.clone())) },
     };
-    Some((term, obs))
+    Some((term, obs, markers))
 }
 
 // ---------------------------------------------------------------------------------------------
@@ -575,8 +593,15 @@ fn main() {
                 let mut r = rng.fork();
                 let p = gen_prog(&mut r, &mut hist, true, literal_only, literal_only);
                 match run_pass(&p.text, literal_only) {
-                    Some((term, obs)) => {
+                    Some((term, obs, markers)) => {
                         if let Err(m) = &obs { println!("ORACLE-FAIL\ttime pass panicked: {}\t{}", oneline(m), oneline(&p.text)); }
+                        // oracle: the generator's own running sum (inner functions restart at 0)
+                        match &obs {
+                            Ok(Some(_)) if p.bad => println!("ORACLE-FAIL\tnon-constant time label accepted by the time pass\t{}", oneline(&p.text)),
+                            Ok(Some(_)) if markers != p.expect => println!("ORACLE-FAIL\tstatement times differ from the label rules: got {:?} expected {:?}\t{}", markers, p.expect, oneline(&p.text)),
+                            Ok(None) if !p.bad => println!("ORACLE-FAIL\ttime pass reports an error on a valid program\t{}", oneline(&p.text)),
+                            _ => {},
+                        }
                         println!("PASS\tKPass {} {}\t{}", term, coq_ires_list(&obs), oneline(&p.text));
                     },
                     None => rejected += 1,
@@ -602,7 +627,7 @@ fn main() {
             // replay of a source program: compile direction
             let text = std::fs::read_to_string(&args[2]).expect("read");
             match run_compile(&text, None, false) { Some(l) => println!("{}", l), None => println!("REJECTED\tparse") }
-            if let Some((term, obs)) = run_pass(&text, false) { println!("PASS\tKPass {} {}\t{}", term, coq_ires_list(&obs), oneline(&text)); }
+            if let Some((term, obs, _)) = run_pass(&text, false) { println!("PASS\tKPass {} {}\t{}", term, coq_ires_list(&obs), oneline(&text)); }
         },
         Some("times") => {
             // replay of a stored script: file with `t0 t1 ...` on the first line and `i:tgt@time` jump entries on the second
